@@ -130,6 +130,13 @@ static void c20_roundtrip(const std::string& bytes, const std::string& cls) {
     std::string dec = b64_decode(ref, t2);
     if (t2.any) viol("c20:decode:throw:" + lenclass, "Decode of canonical text threw " + t2.type + ": " + t2.what);
     else if (dec != bytes) viol("c20:decode:mismatch:" + lenclass, "Decode(Encode(b)) != b (got " + std::to_string(dec.size()) + " bytes, want " + std::to_string(bytes.size()) + ")");
+    // Decode() is also the accessor of the result: asked again, and asked after the text it is bound to has been replaced, it gives the bytes of
+    // the text as it is now
+    { std::string again, refilled; std::string text = ref; Thrown t3 = guarded([&] { Base64Decoder d(text); (void)d.Decode(); const auto& v = d.Decode(); for (auto b : v) again.push_back((char)b);
+          std::string other = bytes.size() > 2 ? bytes.substr(1) : bytes + "z"; text = ref_b64(other); const auto& w = d.Decode(); for (auto b : w) refilled.push_back((char)b); if (refilled != other) refilled = "!"; else refilled.clear(); });
+      if (t3.any) viol("c20:decode:repeated:throw:" + lenclass, "a second Decode() on one decoder threw " + t3.type);
+      else if (again != bytes) viol("c20:decode:repeated:" + lenclass, "a second Decode() on the same decoder gives " + std::to_string(again.size()) + " bytes, the first gave " + std::to_string(bytes.size()));
+      else if (!refilled.empty()) viol("c20:decode:refilled:" + lenclass, "Decode() after the bound text was replaced does not give the bytes of the new text"); }
     g_distinct.add("b64:" + std::to_string(bytes.size() % 3) + ":" + std::to_string(std::min<size_t>(bytes.size(), 64)) + ":" + std::to_string(fnv(bytes) % 64));
     count("b64_roundtrip");
     maybe_sample("base64", hex(bytes.substr(0, 40)), "encodes to " + ref.substr(0, 60));
